@@ -420,7 +420,12 @@ def r10(R, repo):
   R.check(ok, key_of(ns, 'numeric pieces compared as floats'), ns, 'natural_sort must split names with the float regex, convert numeric pieces to float and sort by that key (signed by default)')
   st = mod.func('_checkpoint_path_step')
   ok = 'SIGNED_FLOAT_RE.split(path)[::-1]' in astu.src(st.node) and 'return float(s)' in astu.src(st.node)
-  R.check(ok, key_of(st, 'step = last number in the name'), st, '_checkpoint_path_step must return the last number of the path')
+  first = [x for x in astu.func_calls(st) if astu.call_tail(x) in ('search', 'match', 'fullmatch') and x.args and astu.src(x.args[0]) == astu.params(st.node)[0]]
+  first += [n_ for n_ in ast.walk(st.node) if isinstance(n_, ast.Subscript) and isinstance(n_.value, ast.Call) and astu.call_tail(n_.value) in ('findall', 'split') and astu.is_const(n_.slice, 0)]
+  if first and not ok:
+    R.fail(key_of(st, 'step = last number in the name'), (st, first[0]), '`%s` takes the *first* number found in the whole path: any digit in a directory name (run_3/, a date, a temp dir) is then read as the step, so retention by step (keep_every_n_steps) and the ordering of checkpoints break; the step is the last number of the path' % astu.short(first[0]))
+  else:
+    R.check(ok, key_of(st, 'step = last number in the name'), st, '_checkpoint_path_step must return the last number of the path')
 
 
 meta('C11',
